@@ -13,7 +13,8 @@ for c in REGISTRY.all:
     r = verify_contract(c, si)
     s = summarize(r)
     print(c.name, 'paths', r['paths'], 'obl', s['n'], 'disch', s['discharged'], 'failed', len(s['failed']), 'unk', len(s['unknown']), f"{r['secs']:.2f}s", r['exits'], 'inl', r['inlined'])
-    for e in r['errors']: print('   ERR', e)
+    for e in r['errors'][:3]: print('   ERR', e[:300])
+    if len(r['errors']) > 3: print('   ...', len(r['errors']), 'errors')
     for o in r['obligations']:
         if o.secs > 3: print('   SLOW', o.name, round(o.secs,1), o.status)
     for o in (s['failed'] + s['unknown'])[:int(__import__('os').environ.get('NF','8'))]: print('   ', o.status, o.name, str(o.inputs)[:200], o.trace[-5:], f'{o.secs:.2f}s')
